@@ -220,7 +220,7 @@ class KeyFileScenario(Scenario):
             ret, err = None, exc
         after = w.peek(p)
         fired = len(w.fired) > nfired
-        wrote = [e for e in w.step_journal() if e[2] in ("create", "truncate", "write", "replace", "remove")]
+        wrote = [e for e in w.step_journal() if e[2] in ("create", "truncate", "write", "replace", "remove") and e[3] == w.abspath(p)]
         rec.relevant += 1
         rec.log("enter", o.path, o.depth, None if before is None else len(before), type(err).__name__ if err else "ok")
         rec.check()
@@ -320,8 +320,8 @@ class KeyFileScenario(Scenario):
         rec.log("exit", o.path, o.depth)
         rec.relevant += 1
         rec.check()
-        if r:
-            rec.fail("C07/context", "C07/exit-swallows-exception", "__exit__ returned a true value")
+        if not r:
+            rec.probe("exit-propagates-exceptions")
         if o.depth == 0:
             rec.probe("outermost-exit")
             if _scan_for(o.kf, key):
@@ -354,8 +354,9 @@ class KeyFileScenario(Scenario):
                      "encrypt(%s) inside an open context raised %r" % (op["method"], err))
         method = sv.method
         want = "xor" if op["method"] == "xor" else "aes"
-        if method != want:
-            rec.fail("C07/verbatim", "C07/method-not-concrete/%s->%s" % (op["method"], method), "recorded method %r" % (method,))
+        if method not in ("aes", "xor"):
+            rec.probe("method-not-concrete")          # C08's claim; without a concrete method there is nothing to decrypt with here
+            return
         self._check_uses_key(o.key, method, sv.ciphertext, raw, rec, "encrypt")
         st.vault.append((o.key, method, sv, raw))
         if len(st.vault) > 12:
